@@ -174,7 +174,15 @@ class ForeignXmlGen:
             b.set("{%s}id" % PROV, "%s:bundle%d" % (r.choice(prefixes) if r.random() < 0.5 else "ex", i))
             for _ in range(r.randint(1, 3)):
                 self.record(b, r.choice(list(KIND_FORMALS)), bns, bp, bdefault)
-        return etree.tostring(root, xml_declaration=True, encoding="UTF-8", pretty_print=r.random() < 0.5).decode("utf-8")
+        text = etree.tostring(root, xml_declaration=True, encoding="UTF-8", pretty_print=r.random() < 0.5).decode("utf-8")
+        if r.random() < 0.08 and "ENTITYMARK" not in text:
+            # an internal DTD subset with a general entity, used inside a value: well-formed XML that means the replacement text
+            marks = [m for m in (">plain text<", ">a label<", ">typed string<", ">hello<", ">bonjour<") if m in text]
+            if marks:
+                m = marks[0]
+                text = text.replace(m, ">Report by &who; (draft)<", 1)
+                text = text.replace("?>", '?>\n<!DOCTYPE prov:document [<!ENTITY who "Alice &amp; Bob">]>', 1)
+        return text
 
 
 def corpus_files():
